@@ -832,13 +832,23 @@ def replay_witnesses(ctx):
         ctx.broke("correspondence-broken", "witness of C08_ws_repaired_witnesses ('#' trailer of mmCIF input) does not behave on the real code as the theorem states", detail, {"atom": BASE, "is_cif": True})
 
 
+def judgeable(d):
+    """The oracle's domain: in_quantifier with the charge / radius bound relaxed to
+    the capacity of their columns (8 / 7 characters: 'whatever the magnitude of
+    numbers'; |q| >= 10 and r >= 10 are written and read back exactly)."""
+    if not in_quantifier(dict(d, ffcharge=None, radius=None)):
+        return False
+    q, r = d["ffcharge"], d["radius"]
+    return (q is None or len(f"{q:.4f}") <= 8) and (r is None or (len(f"{r:.4f}") <= 7 and not fx(r, 4)[0]))
+
+
 def search(ctx, atoms, real=None):
     """Independent write/read-back oracle on the real code."""
     if real is None:
         real = real_lines(ctx, atoms)
     nfail = 0
     for d, L in zip(atoms, real):
-        inq = in_quantifier(d)
+        inq = judgeable(d)
         ctx.count("search:in-quantifier" if inq else "search:outside-quantifier(skipped)")
         if not inq:
             continue
@@ -847,6 +857,238 @@ def search(ctx, atoms, real=None):
             if ctx.fail(sig, what, {"atom": d, **cfg}):
                 nfail += 1
     return nfail
+
+
+def expected_shape(atoms):
+    """Record kinds of the default-layout file, from the INPUT: an atom line per
+    atom, TER before an atom whose chain differs from the previous atom's, TER + END
+    at the end."""
+    out = []
+    for i, d in enumerate(atoms):
+        if i and d["chain_id"] != atoms[i - 1]["chain_id"]:
+            out.append("TER")
+        out.append("A")
+    return out + ["TER", "END"]
+
+
+def file_structure_oracle(ctx, atoms, objs, lines, text, cf, ws):
+    """TER/END placement; psize's PQR reader on the written file; the --pdb-output
+    writer (print_biomolecule_atoms(pdbfile=True)) read back by its columns."""
+    from pdb2pqr import io as pio
+    from pdb2pqr import psize as ppsize
+
+    case = {"atoms": atoms, "keep_chain": cf, "whitespace": ws}
+    recs = text.split("\n")
+    if recs and recs[-1] == "":
+        recs.pop()
+    shape = ["A" if (r[:4] == "ATOM" or r[:6] == "HETATM") else r.strip() for r in recs]
+    want = [k for k in expected_shape(atoms) if k == "A"] if ws else expected_shape(atoms)
+    if shape != want:
+        ctx.fail({"site": "io.print_biomolecule_atoms/main.print_pqr", "field": "TER/END records", "condition": "not at the chain changes of the input"}, f"records {shape} expected {want}", case)
+    clean = [d for d in atoms if judgeable(d) and not causes(d, cf, False)]
+    if len(clean) == len(atoms) and atoms:
+        ps = ppsize.Psize()
+        try:
+            ps.parse_lines(text.splitlines(keepends=True))
+            n = ps.gotatom + ps.gothet
+            q = sum((d["ffcharge"] or 0.0) for d in atoms)
+            rad = [d["radius"] or 0.0 for d in atoms]
+            lo = [min(d[k] - r for d, r in zip(atoms, rad)) for k in "xyz"]
+            hi = [max(d[k] + r for d, r in zip(atoms, rad)) for k in "xyz"]
+            tol = 0.00056
+            bad = n != len(atoms) or abs(ps.charge - q) > 0.00005 * len(atoms) + 1e-9
+            bad = bad or any(a is None or abs(a - b) > tol for a, b in zip(list(ps.minlen) + list(ps.maxlen), lo + hi))
+            detail = f"psize read {n} atoms charge {ps.charge} box {ps.minlen}..{ps.maxlen}; written {len(atoms)} atoms charge {q} box {lo}..{hi}"
+        except (ValueError, IndexError) as e:
+            bad, detail = True, f"psize.parse_lines raises {type(e).__name__}: {e}"
+        ctx.evaluated(("psize-reader", len(atoms), cf, ws), True)
+        ctx.count("psize-reader:files" + (":bad" if bad else ""))
+        if bad:
+            ctx.fail({"site": "psize.Psize.parse_lines", "field": "own PQR output", "condition": "numbers not recovered", "layout": "whitespace" if ws else "default"}, detail, case)
+    if not ws:
+        pobjs = [mk_atom(d) for d in atoms]
+        for a in pobjs:
+            a.occupancy, a.temp_factor, a.seg_id, a.element, a.charge = 1.0, 0.0, "", "", ""
+        # Atom.get_pdb_string always prints the chain id (chainflag=True), whatever --keep-chain says
+        plines = [l for l in pio.print_biomolecule_atoms(pobjs, cf, True) if l[:4] == "ATOM" or l[:6] == "HETATM"]
+        ctx.evaluated(("pdb-writer", len(atoms), cf), True)
+        if len(plines) != len(atoms):
+            ctx.fail({"site": "io.print_biomolecule_atoms(pdbfile=True)", "field": "line-count", "condition": "atom lines lost or added"}, f"{len(plines)} lines for {len(atoms)} atoms", case)
+        else:
+            for i, (d, l) in enumerate(zip(atoms, plines)):
+                d = dict(d, serial=i + 1)
+                want_v = expected_values(d, True)
+                gotv = slice_line(l.rstrip("\n"))
+                badk = {k for k in ("type", "serial", "name", "res_name", "chain_id", "res_seq", "ins_code", "x", "y", "z") if not field_ok(k, want_v[k], gotv[k])}
+                for sig, what in explain(badk, causes(d, True, False), "pdb-output-layout", f"line={l!r}"):
+                    ctx.fail(sig, what, {"atom": d, "layout": "pdb-output", "keep_chain": cf})
+
+
+HISTORY_SCRIPT = r"""
+import json, sys, os, tempfile, argparse
+from harness.props import c08
+from pdb2pqr import io as pio, main as pmain
+job = json.load(sys.stdin)
+out = []
+for atoms, cf, ws, cif in job:
+    lines = pio.print_biomolecule_atoms([c08.mk_atom(d) for d in atoms], cf)
+    f = tempfile.mktemp()
+    pmain.print_pqr(argparse.Namespace(output_pqr=f, whitespace=ws), lines, [], [], cif)
+    text = open(f).read(); os.unlink(f)
+    out.append([text, [repr(c08.impl_parse(l)) for l in text.splitlines(keepends=True)]])
+json.dump(out, sys.stdout)
+"""
+
+
+def search_history(ctx):
+    """Process history: the same atom list written / read twice, with other lists
+    (also failing ones) in between, on the same Atom objects, and in a fresh
+    process - the file text and what the reader returns must be identical."""
+    import subprocess
+    import sys
+
+    from pdb2pqr import io as pio
+
+    rng = ctx.rng
+
+    def mklist(n, inside):
+        out, chain = [], rng.choice(["A", "", "1"])
+        for _ in range(n):
+            if rng.random() < 0.3:
+                chain = rng.choice(["A", "B", "", "1"])
+            d = gen_atom(rng, inside=inside)
+            d["chain_id"] = chain
+            out.append(d)
+        return out
+
+    def write(objs, cf, ws, cif):
+        return impl_print_pqr(ctx, pio.print_biomolecule_atoms(objs, cf), ws, cif)
+
+    def read(text):
+        return [repr(impl_parse(l)) for l in text.splitlines(keepends=True)]
+
+    lists = [mklist(6, True), mklist(5, False), [variant(res_seq=1000, ins_code="B"), variant(chain_id="B", serial=7)], mklist(4, True)]
+    job, first = [], []
+    for atoms in lists:
+        for cf in (False, True):
+            for ws in (False, True):
+                cif = rng.random() < 0.3
+                job.append((atoms, cf, ws, cif))
+    sig = {"site": "process-history", "field": "", "condition": "result depends on earlier calls in the process"}
+    objs_of = {id(a): [mk_atom(d) for d in a] for a in lists}
+    for atoms, cf, ws, cif in job:
+        t = write([mk_atom(d) for d in atoms], cf, ws, cif)
+        first.append((t, read(t)))
+    # again, in another order, on Atom objects that have been printed before (serials rewritten), readers re-run
+    order = list(range(len(job)))
+    rng.shuffle(order)
+    for rnd in range(2):
+        for i in order:
+            atoms, cf, ws, cif = job[i]
+            t = write(objs_of[id(atoms)], cf, ws, cif)
+            r = read(t)
+            ctx.evaluated(("history", i, rnd), True)
+            if t != first[i][0]:
+                ctx.fail(dict(sig, field="written file"), f"call {rnd + 2} wrote {t[:200]!r}, the first call {first[i][0][:200]!r}", {"atoms": atoms, "keep_chain": cf, "whitespace": ws, "is_cif": cif, "history": True})
+            elif r != first[i][1]:
+                ctx.fail(dict(sig, field="reader result"), f"call {rnd + 2} read {r[:3]}, the first call {first[i][1][:3]}", {"atoms": atoms, "keep_chain": cf, "whitespace": ws, "is_cif": cif, "history": True})
+        order.reverse()
+    # fresh process
+    try:
+        p = subprocess.run([sys.executable, "-c", HISTORY_SCRIPT], input=json.dumps(job), capture_output=True, text=True, timeout=120, cwd=str(core.VERIF))
+        fresh = json.loads(p.stdout)
+    except Exception as e:  # noqa
+        ctx.broke("harness-error", "fresh-process run for the history search failed", f"{type(e).__name__}: {e} {locals().get('p') and p.stderr[-400:]}")
+        return
+    for i, ((atoms, cf, ws, cif), (t, r)) in enumerate(zip(job, fresh)):
+        ctx.evaluated(("history-fresh", i), True)
+        if t != first[i][0] or r != first[i][1]:
+            ctx.fail(dict(sig, field="fresh process vs this process"), f"fresh process wrote/read {t[:160]!r} {r[:2]}; this process {first[i][0][:160]!r} {first[i][1][:2]}", {"atoms": atoms, "keep_chain": cf, "whitespace": ws, "is_cif": cif, "history": True})
+
+
+CLI_SEQS = [["ALA", "GLY"], ["SER", "LYS", "ASP"], ["GLY", "HIS", "CYS"], ["THR", "GLU"]]
+
+
+def search_cli(ctx, n):
+    """Option lattice through the real CLI path (main.run_pdb2pqr): random
+    --ff/--ffout/--whitespace/--keep-chain/--include-header/--pdb-output/
+    --apbs-input/--noopt/--nodebump on small built peptides whose numbering,
+    chain id, insertion code and position exercise the column boundaries.  The
+    PQR file is read back and compared with the RETURNED biomolecule's atoms;
+    options that must not touch the PQR atom records (--pdb-output,
+    --apbs-input, --include-header) are toggled and the records compared."""
+    import io as _io
+
+    from harness import builder
+    from pdb2pqr import io as pio
+    from pdb2pqr import main as pmain
+
+    rng = ctx.rng
+    tmp = ctx.scratch_dir()
+    for k in range(n):
+        seq = rng.choice(CLI_SEQS)
+        chain = rng.choice(["A", "B", "", "1", "z"])
+        start = rng.choice([1, -5, -100, 98, 998, 9998])
+        icode = rng.choice(["", "", "B"])
+        origin = rng.choice([(0.0, 0.0, 0.0), (-960.0, 9950.0, -0.5), (123.456, -78.901, 999.5)])
+        atoms = builder.build_peptide(seq, chain=chain or "A", start=start, icode=icode, origin=origin)
+        if chain == "":
+            atoms = builder.set_chain(atoms, "")
+        text = builder.to_pdb(atoms)
+        inp = tmp / f"cli{k}.pdb"
+        inp.write_text(text)
+        ff = rng.choice(["AMBER", "PARSE", "CHARMM", "SWANSON"])
+        opts = [f"--ff={ff}", "--log-level=CRITICAL"]
+        if rng.random() < 0.5:
+            opts.append("--ffout=" + rng.choice(["AMBER", "CHARMM", "PARSE"]))
+        ws, cf = rng.random() < 0.5, rng.random() < 0.6
+        opts += (["--whitespace"] if ws else []) + (["--keep-chain"] if cf else [])
+        opts += [o for o in ("--noopt", "--nodebump", "--drop-water") if rng.random() < 0.5]
+        extras = [o for o in ("--include-header", "PDBOUT", "APBS") if rng.random() < 0.6] or ["--include-header"]
+        case = {"cli": True, "pdb": text, "options": opts, "extras": extras}
+        outs = []
+        for j, ex in enumerate(([], extras)):
+            outp = tmp / f"cli{k}_{j}.pqr"
+            exo = [f"--pdb-output={tmp / f'cli{k}_{j}.out.pdb'}" if e == "PDBOUT" else ("--apbs-input=" + str(tmp / f"cli{k}_{j}.in") if e == "APBS" else e) for e in ex]
+            try:
+                res = pmain.run_pdb2pqr(opts + exo + [str(inp), str(outp)])
+                outs.append((outp.read_text(), res[2]))
+            except BaseException as e:  # noqa
+                if isinstance(e, KeyboardInterrupt):
+                    raise
+                outs.append((None, f"{type(e).__name__}: {e}"))
+        ctx.evaluated(("cli", tuple(seq), chain, start, icode, origin[0], ff, ws, cf, tuple(extras)), True)
+        ctx.count("cli:" + ("ws" if ws else "fixed") + ("+chain" if cf else ""))
+        (t0, b0), (t1, b1) = outs
+        if t0 is None or t1 is None:
+            if (t0 is None) != (t1 is None):
+                ctx.fail({"site": "main.main_driver", "field": "run", "condition": "outcome depends on --include-header/--pdb-output/--apbs-input"}, f"without extras: {b0 if t0 is None else 'ok'}; with {extras}: {b1 if t1 is None else 'ok'}", case)
+            else:
+                ctx.count("cli:run-raised(both)")
+            continue
+        if t0 != t1:
+            ctx.fail({"site": "main.main_driver", "field": "PQR file", "condition": "changed by --include-header/--pdb-output/--apbs-input"}, f"with {extras}: {t1[:300]!r} without: {t0[:300]!r}", case)
+        for ex in extras:
+            f = tmp / (f"cli{k}_1.out.pdb" if ex == "PDBOUT" else f"cli{k}_1.in")
+            if ex != "--include-header" and not (f.exists() and f.stat().st_size > 0):
+                ctx.fail({"site": "main.main_driver", "field": ex, "condition": "requested output not written"}, str(f), case)
+        got = [l for l in t0.split("\n") if l[:4] == "ATOM" or l[:6] == "HETATM"]
+        model = b0.atoms
+        if len(got) != len(model):
+            ctx.fail({"site": "main.main_driver", "field": "line-count", "condition": "atom lines differ from the returned biomolecule"}, f"{len(got)} atom lines, {len(model)} atoms returned", case)
+            continue
+        for i, (a, line) in enumerate(zip(model, got)):
+            d = {"type": a.type, "serial": i + 1, "name": a.name, "res_name": a.res_name, "chain_id": a.chain_id or "", "res_seq": a.res_seq, "ins_code": a.ins_code or "", "x": a.x, "y": a.y, "z": a.z, "ffcharge": a.ffcharge, "radius": a.radius}
+            line += "\n"
+            fl = check_default(d, cf, line) if not ws else check_ws_tokens(d, cf, line) + check_ws_reader(d, cf, impl_parse(line), line)
+            for sig, what in fl:
+                ctx.fail(sig, what, {"atom": d, "layout": "whitespace" if ws else "default", "keep_chain": cf, "via": "main.run_pdb2pqr " + " ".join(opts)})
+        if ws:
+            try:
+                if len(pio.read_pqr(_io.StringIO(t0))) != len(model) and not any(numeric_ins({"ins_code": a.ins_code or ""}) for a in model):
+                    ctx.fail({"site": "io.read_pqr", "field": "atom-count", "condition": "atoms lost"}, "read_pqr of the CLI output", case)
+            except (ValueError, IndexError):
+                pass  # classified per line above
 
 
 def search_pipeline(ctx, nfiles):
@@ -884,6 +1126,8 @@ def search_pipeline(ctx, nfiles):
                 text = impl_print_pqr(ctx, lines, ws)
                 got = [l for l in text.split("\n") if l[:4] == "ATOM" or l[:6] == "HETATM"]
                 ctx.evaluated(("file", len(atoms), cf, ws), True)
+                if not isbig:
+                    file_structure_oracle(ctx, atoms, objs, lines, text, cf, ws)
                 if len(got) != len(atoms):
                     ctx.fail({"site": "main.print_pqr", "field": "line-count", "condition": "atom lines lost or added"}, f"{len(got)} atom lines for {len(atoms)} atoms", {"atoms": atoms[:50], "keep_chain": cf, "whitespace": ws})
                     continue
@@ -959,6 +1203,8 @@ def run(ctx):
     # independent oracle on the real code
     search(ctx, atoms + [w[1] for w in WITNESSES])
     search_pipeline(ctx, 12 * scale)
+    search_history(ctx)
+    search_cli(ctx, 4 * scale)
     if not ok or corr_broken:
         extra = [gen_atom(rng, inside=True) for _ in range(6000)]
         for b in ctx.broken:
